@@ -174,6 +174,13 @@ def sets_family():
         for body in ([['D', 1]], [['D', 1], ['RAISE', 'KeyError', 'b']]):
             out.append({'_nops': 30, 'roots': [['root', [['TRY', [['SCOPE', 's', kids + body]]], ['PROBE', 'now']]]]})
             out.append({'_nops': 30, 'roots': [['root', [['UNTIL', 'u', ['DELAY', 1], kids + [['D', 2]]], ['PROBE', 'now']]]]})
+    # the program follows the verdict of matching a failure against Concurrent[...] of user-defined exception types
+    for kids_t in (('SubA', 'SubB'), ('SubB', 'SubA'), ('SubA', 'BaseB'), ('SubA', 'SubB', 'KeyError')):
+        for handler in (('BaseA', 'BaseB'), ('BaseB', 'BaseA'), ('SubA', 'BaseB'), ('BaseA', 'BaseB', 'LookupError'), ('BaseA',)):
+            for incl in (False, True):
+                kids = [['DO', 'f%d' % i, [['D', 1], ['RAISE', t, 'f%d' % i]]] for i, t in enumerate(kids_t)]
+                out.append({'_nops': 30, 'roots': [['root', [['MATCH', [['SCOPE', 's', kids + [['D', 2]]]], list(handler), incl],
+                                                             ['PROBE', 'now']]]]})
     for names in (['a', 'b'], ['b', 'a'], ['mem', 'cores', 'disk']):
         amounts = {n: 2 for n in names}
         kids = [['DO', 'u%d' % i, [['BORROW', 'r', {n: 1}, [['D', 1]]], ['PROBE', 'levels', 'r']]] for i, n in enumerate(names)]
